@@ -1399,7 +1399,10 @@ def _check_autodiscover(run, world, mod, F, cfg, ys, fn):
     cases = [("default", dflt, list(range(64))),
              ("(5, 9)", (5, 9), [5, 6, 7, 8, 9]),
              ("(63, 63)", (63, 63), [63]),
-             ("[1, 4, 63]", [1, 4, 63], [1, 4, 63])]
+             ("[1, 4, 63]", [1, 4, 63], [1, 4, 63]),
+             # a list is the addresses themselves, whatever its length
+             ("[3, 40]", [3, 40], [3, 40]),
+             ("[40, 12]", [40, 12], [40, 12])]
     outer_iter = outer[0].ast.iter if outer else None
     for (label, value, want) in cases:
         got = _fold_addresses(folder, cfg, fn, value, outer_iter)
